@@ -315,6 +315,10 @@ func WriteSession(kind, dir string, roots []cid.Cid, blks []kit.Blk, o Opts, ste
 		res.Bytes = buf.Bytes()
 		return res, nil
 	case "def-path":
+		// the target path already holds a longer file: the writer must replace it, not write into it
+		if err := os.WriteFile(path, bytes.Repeat([]byte{0xEE}, 20000), 0o644); err != nil {
+			return nil, err
+		}
 		w := deferred.NewDeferredCarWriterForPath(path, roots, opts...)
 		runSteps(defPutter{w}, blks, steps, 0, doReads, res)
 		res.FinErr = w.Close()
